@@ -3,6 +3,7 @@ package c11
 
 import (
 	"fmt"
+	"strings"
 	"os"
 	"testing"
 
@@ -355,6 +356,32 @@ func draw(t *rapid.T) Case {
 	cs.Data = pol.GenData(t, "data")
 	cfg := pol.GenCfg{Depth: 3, MaxStmt: 3}
 	cs.Pol = pol.Gen(t, cs.Data, cfg, "p")
+	if rapid.IntRange(0, 11).Draw(t, "focuslike") == 0 {
+		// like over a long, self-overlapping subject (expensive for a backtracking matcher), also under not / all
+		n := rapid.SampledFrom([]int{30, 60, 100, 400, 3000}).Draw(t, "ln")
+		k := rapid.SampledFrom([]int{1, 9, 17, 40, 300}).Draw(t, "lk")
+		if k > n {
+			k = n
+		}
+		tail := rapid.SampledFrom([]string{"b", "", "ab"}).Draw(t, "ltail")
+		subj := strings.Repeat("a", n) + tail
+		pat := "*" + strings.Repeat("a", k) + tail
+		if rapid.IntRange(0, 3).Draw(t, "lmiss") == 0 {
+			pat += "x"
+		}
+		cs.Data = val.Map(val.E("s", val.Str(subj)), val.E("l", val.List(val.Str(subj), val.Str("b"+subj))))
+		like := pol.Stmt{Op: "like", Sel: sel.Sel{{Kind: "field", Name: "s"}}, Pat: pat}
+		switch rapid.IntRange(0, 3).Draw(t, "lwrap") {
+		case 0:
+			cs.Pol = pol.Policy{like}
+		case 1:
+			cs.Pol = pol.Policy{{Op: "not", Sub: []pol.Stmt{like}}}
+		case 2:
+			cs.Pol = pol.Policy{{Op: "all", Sel: sel.Sel{{Kind: "field", Name: "l"}}, Sub: []pol.Stmt{{Op: "like", Sel: sel.Sel{{Kind: "id"}}, Pat: pat}}}}
+		default:
+			cs.Pol = pol.Policy{{Op: "and", Sub: []pol.Stmt{like, {Op: "like", Sel: sel.Sel{{Kind: "field", Name: "s"}}, Pat: "a*"}}}}
+		}
+	}
 	cs.Q = pol.Gen(t, cs.Data, pol.GenCfg{Depth: 2, MaxStmt: 2}, "q")
 	cs.Perm = rapid.SliceOfN(rapid.IntRange(0, 5), 1, 8).Draw(t, "perm")
 	if rapid.Bool().Draw(t, "hasextra") {
